@@ -62,6 +62,22 @@ def render(op, a, o):
             return "bytes_eqb (sha1 %s) %s" % (cbytes(a[0]), cbytes(o[0]))
         if op == "crc32c":
             return "N.eqb (crc32c %s) %s" % (cbytes(a[0]), cN(o[0]))
+        if op == "maskfor":
+            return "bytes_eqb (mask_for_ip %s) %s" % (cbytes(a[0]), cbytes(o[0]))
+        if op == "islocal":
+            return "Bool.eqb (is_local_network %s) %s" % (cbytes(a[0]), cbool(o[0]))
+        if op == "crcip":
+            if o[0] == "panic":
+                return "match crc_ip %s (byte_of_N %s) with None => true | Some _ => false end" % (cbytes(a[0]), cN(a[1]))
+            return "match crc_ip %s (byte_of_N %s) with Some c => N.eqb c %s | None => false end" % (cbytes(a[0]), cN(a[1]), cN(o[0]))
+        if op == "secure":
+            if o[0] == "panic":
+                return "match secure_node_id %s %s with None => true | Some _ => false end" % (cbytes(a[0]), cbytes(a[1]))
+            return "match secure_node_id %s %s with Some i => bytes_eqb i %s | None => false end" % (cbytes(a[0]), cbytes(a[1]), cbytes(o[0]))
+        if op == "issecure":
+            if o[0] == "panic":
+                return "match node_id_secure %s %s with None => true | Some _ => false end" % (cbytes(a[0]), cbytes(a[1]))
+            return "match node_id_secure %s %s with Some b => Bool.eqb b %s | None => false end" % (cbytes(a[0]), cbytes(a[1]), cbool(o[0]))
     except (IndexError, ValueError):
         return None
     return None
@@ -69,7 +85,7 @@ def render(op, a, o):
 
 IMPORTS = {
     "metric": "From Dht Require Import Base Int160 Order RunMetric.",
-    "security": "From Dht Require Import Base Sha1 Crc32c.",
+    "security": "From Dht Require Import Base Sha1 Crc32c Security.",
 }
 
 
@@ -78,17 +94,18 @@ def run(coq_dir, work_dir, engine, data_lines, sample=300):
     if engine not in IMPORTS:
         return dict(checked=0, failed=[], log="engine not covered")
     exprs = []
-    step = max(1, len(data_lines) // (sample * 3))
-    for l in data_lines[::step]:
+    for l in data_lines:
         lhs, _, rhs = l.partition(" => ")
         t = lhs.split()
-        if len(" ".join(t)) > 3000:
+        if not t or len(lhs) > 3000:
             continue
         e = render(t[0], t[1:], rhs.split())
         if e:
             exprs.append((l, e))
-        if len(exprs) >= sample:
-            break
+    # an even sample over the renderable lines, every op kind represented
+    if len(exprs) > sample:
+        step = len(exprs) / float(sample)
+        exprs = [exprs[int(i * step)] for i in range(sample)]
     if not exprs:
         return dict(checked=0, failed=[], log="no renderable line")
     os.makedirs(work_dir, exist_ok=True)
